@@ -12,6 +12,7 @@ structure Cfg where
   unaryDeferUnregister : Bool
   dispatchOutsideLock : Bool
   okStatusIsSuccess : Bool
+  statsHeaderNilSafe : Bool
   recvRechecksDoneOnCtx : Bool
   resetIsError : Bool
   badMetaSetsErr : Bool
